@@ -36,6 +36,7 @@ func main() {
 // ---------- in-process DNS ----------
 
 type dnsTable struct {
+	addr    string // UDP address the server listens on
 	mu      sync.Mutex
 	recs    map[string][]net.IP
 	queries map[string]int
@@ -98,6 +99,7 @@ func startDNS() (*dnsTable, error) {
 	go srv.ActivateAndServe()
 	<-started
 	addr := pc.LocalAddr().String()
+	t.addr = addr
 	net.DefaultResolver = &net.Resolver{PreferGo: true, Dial: func(ctx context.Context, _, _ string) (net.Conn, error) {
 		var d net.Dialer
 		return d.DialContext(ctx, "udp", addr)
@@ -114,11 +116,14 @@ var errRefused = errors.New("c18: base dialer refuses")
 type recorder struct {
 	mu      sync.Mutex
 	byDial  map[int64][]string
+	okDial  map[int64]int // base dials of that outer dial that returned a connection
 	succeed func(addr string) bool
 	conns   []net.Conn
 }
 
-func newRecorder() *recorder { return &recorder{byDial: map[int64][]string{}} }
+func newRecorder() *recorder {
+	return &recorder{byDial: map[int64][]string{}, okDial: map[int64]int{}}
+}
 
 func (r *recorder) dial(ctx context.Context, network, addr string) (net.Conn, error) {
 	id, _ := ctx.Value(dialIDKey{}).(int64)
@@ -130,6 +135,7 @@ func (r *recorder) dial(ctx context.Context, network, addr string) (net.Conn, er
 		var c2 net.Conn
 		c1, c2 = net.Pipe()
 		r.conns = append(r.conns, c1, c2)
+		r.okDial[id]++
 	}
 	r.mu.Unlock()
 	if ok {
@@ -161,7 +167,7 @@ type mapEntry struct {
 
 // history is one attacker configuration with a sequence of dials (the replay input).
 type history struct {
-	Config  string     `json:"config"` // "none" | "D" | "C" | "DC" (DNSCaching then ConnectTo: the command's order) | "CD"
+	Config  string     `json:"config"` // "none" | "D" | "C" | "DC" (DNSCaching then ConnectTo: the command's order) | "CD"; "N" = DNSCaching(-1) (disabled), also "NC", "CN"
 	Hosts   []hostSpec `json:"hosts"`
 	Map     []mapEntry `json:"map"`
 	Dials   []string   `json:"dials"`
@@ -180,6 +186,8 @@ func (h *history) options(rec *recorder) []func(*vegeta.Attacker) {
 		switch c {
 		case 'D':
 			opts = append(opts, vegeta.DNSCaching(0))
+		case 'N':
+			opts = append(opts, vegeta.DNSCaching(-1)) // negative ttl: no caching, the dial function is left alone
 		case 'C':
 			opts = append(opts, vegeta.ConnectTo(m))
 		}
@@ -188,7 +196,10 @@ func (h *history) options(rec *recorder) []func(*vegeta.Attacker) {
 }
 
 type histResult struct {
-	base     [][]string // per dial: addresses that reached the base dialer (sorted)
+	base     [][]string     // per dial: addresses that reached the base dialer (sorted)
+	gotConn  []bool         // per dial: the dial function returned a connection
+	baseOK   []int          // per dial: base dials that returned a connection
+	queries  map[string]int // DNS questions asked per host name during the history
 	panicked bool
 	panicMsg string
 }
@@ -218,10 +229,11 @@ func runHistory(h *history, table *dnsTable) *histResult {
 	defer rec.closeAll()
 	atk := vegeta.NewAttacker(h.options(rec)...)
 	dial := atk.VerifDialContext()
-	res := &histResult{base: make([][]string, len(h.Dials))}
+	res := &histResult{base: make([][]string, len(h.Dials)), gotConn: make([]bool, len(h.Dials)), baseOK: make([]int, len(h.Dials)), queries: map[string]int{}}
 	one := func(i int) {
 		ctx := context.WithValue(context.Background(), dialIDKey{}, int64(i+1))
-		conn, _ := dial(ctx, "tcp", h.Dials[i])
+		conn, err := dial(ctx, "tcp", h.Dials[i])
+		res.gotConn[i] = conn != nil && err == nil
 		if conn != nil {
 			conn.Close()
 		}
@@ -264,8 +276,14 @@ func runHistory(h *history, table *dnsTable) *histResult {
 		l := append([]string(nil), rec.byDial[int64(i+1)]...)
 		sort.Strings(l)
 		res.base[i] = l
+		res.baseOK[i] = rec.okDial[int64(i+1)]
 	}
 	rec.mu.Unlock()
+	table.mu.Lock()
+	for _, hs := range h.Hosts {
+		res.queries[hs.Name] = table.queries[strings.ToLower(hs.Name)+"."]
+	}
+	table.mu.Unlock()
 	return res
 }
 
@@ -349,8 +367,12 @@ func analyse(s *kit.Summary, r *kit.Rng, h *history, res *histResult, longrun, p
 		viol("dial_panic", "the dial function panicked", "", res.panicMsg, nil)
 		return
 	}
-	hasD := strings.Contains(h.Config, "D")
-	hasC := strings.Contains(h.Config, "C")
+	cfg := strings.ReplaceAll(h.Config, "N", "") // DNSCaching(-1) leaves the dial function alone
+	if cfg == "" {
+		cfg = "none"
+	}
+	hasD := strings.Contains(cfg, "D")
+	hasC := strings.Contains(cfg, "C")
 	hostByName := map[string]*hostTrace{}
 	hostByIP := map[string]*hostTrace{}
 	for i := range h.Hosts {
@@ -387,7 +409,13 @@ func analyse(s *kit.Summary, r *kit.Rng, h *history, res *histResult, longrun, p
 		// undo the layers from the inside out: what did each layer hand down?
 		var dnsTargets []string // ips chosen by the DNS layer for this dial
 		var dnsHost *hostTrace
-		switch h.Config {
+		// the connection a dial returns: one iff some attempt of it produced one
+		if res.baseOK[i] > 0 && !res.gotConn[i] {
+			viol("dial_result_lost", "an attempt of the dial succeeded but the dial function returned no connection", "a connection", "error", map[string]interface{}{"dial": i})
+		} else if res.baseOK[i] == 0 && res.gotConn[i] {
+			viol("dial_result_phantom", "no attempt succeeded but the dial function returned a connection", "error", "a connection", map[string]interface{}{"dial": i})
+		}
+		switch cfg {
 		case "none":
 			if len(got) != 1 || got[0] != d {
 				viol("dial_passthrough", "without options the address must reach the dialer unchanged", d, fmt.Sprint(got), nil)
@@ -404,7 +432,7 @@ func analyse(s *kit.Summary, r *kit.Rng, h *history, res *histResult, longrun, p
 			}
 		case "D", "DC":
 			target := d
-			if e, ok := mapByKey[d]; ok && h.Config == "DC" {
+			if e, ok := mapByKey[d]; ok && cfg == "DC" {
 				// the replacement used is identified by the host its addresses belong to
 				target = ""
 				for _, g := range got {
@@ -426,8 +454,16 @@ func analyse(s *kit.Summary, r *kit.Rng, h *history, res *histResult, longrun, p
 					continue
 				}
 			}
-			hn, port, _ := net.SplitHostPort(target)
+			hn, port, serr := net.SplitHostPort(target)
 			dnsHost = hostByName[hn]
+			if serr != nil || dnsHost == nil {
+				// no port, or a name the DNS does not know: nothing is resolved, nothing may be dialled
+				s.Count("dial:unresolvable_address")
+				for _, g := range got {
+					garbled(i, g)
+				}
+				continue
+			}
 			for _, g := range got {
 				ip, p, err := net.SplitHostPort(g)
 				if err != nil || p != port {
@@ -437,8 +473,15 @@ func analyse(s *kit.Summary, r *kit.Rng, h *history, res *histResult, longrun, p
 				dnsTargets = append(dnsTargets, canonIP(ip))
 			}
 		case "CD":
-			hn, port, _ := net.SplitHostPort(d)
+			hn, port, serr := net.SplitHostPort(d)
 			dnsHost = hostByName[hn]
+			if serr != nil || dnsHost == nil {
+				s.Count("dial:unresolvable_address")
+				for _, g := range got {
+					garbled(i, g)
+				}
+				continue
+			}
 			for _, g := range got {
 				if e := replOwner[g]; e != nil {
 					ip, p, _ := net.SplitHostPort(e.Key)
@@ -499,6 +542,15 @@ func analyse(s *kit.Summary, r *kit.Rng, h *history, res *histResult, longrun, p
 		sort.Ints(ids)
 		dnsHost.dials = append(dnsHost.dials, ids)
 		dnsHost.dialNo = append(dnsHost.dialNo, i)
+	}
+	// "DNS caching … ttl zero: never expire": one lookup (A and AAAA, allowing resolver retries) per host
+	if hasD {
+		for _, ht := range hostByName {
+			if q := res.queries[ht.spec.Name]; len(ht.dials) >= 20 && q > 8 {
+				viol("dns_lookup_not_cached", "the host was looked up again and again although caching is enabled with ttl 0",
+					"at most 8 DNS questions", fmt.Sprintf("%d questions for %d dials", q, len(ht.dials)), map[string]interface{}{"host_dials": len(ht.dials)})
+			}
+		}
 	}
 	// every resolved address keeps being used: window rule per host and family
 	if hasD {
@@ -724,7 +776,11 @@ func genHistory(r *kit.Rng, cfg string, tier string, workers int) *history {
 	port := func() string { return strconv.Itoa(80 + r.Pick(3)) }
 	n := genDialCount(r, tier)
 	var pool []string
-	switch cfg {
+	kind := strings.ReplaceAll(cfg, "N", "")
+	if kind == "" {
+		kind = "none"
+	}
+	switch kind {
 	case "none", "D":
 		for _, hs := range h.Hosts {
 			pool = append(pool, hs.Name+":"+port())
@@ -766,7 +822,13 @@ func genHistory(r *kit.Rng, cfg string, tier string, workers int) *history {
 			}
 		}
 	}
+	// addresses for which nothing can be resolved: an unknown name, an address without port
+	bad := []string{"missing-" + h.Tag + ".c18.test:80", h.Hosts[0].Name, "[" + h.Hosts[0].Name}
 	for i := 0; i < n; i++ {
+		if hasD && r.Chance(0.03) {
+			h.Dials = append(h.Dials, bad[r.Pick(len(bad))])
+			continue
+		}
 		h.Dials = append(h.Dials, pool[r.Pick(len(pool))])
 	}
 	return h
@@ -847,7 +909,7 @@ func foeCase(r *kit.Rng, s *kit.Summary, st *kit.Stream) {
 // ---------- main ----------
 
 func runC18(c *run.Ctx, s *kit.Summary) {
-	s.Rule = "histories: attacker built with VerifBaseDial(recorder) then a subset of {DNSCaching(0), ConnectTo(map)} in both orders (none, D, C, DC = the command's order, CD); 1..3 host names with 1..8 addresses (IPv4 only, IPv6 only, mixed) answered by an in-process DNS server; 1..10^4 dials per history (quick: up to 3000), 1..64 concurrent diallers; firstOfEachIPFamily on lists of 0..9 strings incl. invalid and IPv4-mapped; non-trivial = history with >= 2 dials, or an address list with >= 2 entries"
+	s.Rule = "histories: attacker built with VerifBaseDial(recorder) then a subset of {DNSCaching(0), ConnectTo(map)} in both orders (none, D, C, DC = the command's order, CD; N = DNSCaching(-1), NC, CN); 3% of the dials in caching configurations go to unresolvable addresses (unknown name, no port); 1..3 host names with 1..8 addresses (IPv4 only, IPv6 only, mixed) answered by an in-process DNS server; 1..10^4 dials per history (quick: up to 3000), 1..64 concurrent diallers; firstOfEachIPFamily on lists of 0..9 strings incl. invalid and IPv4-mapped; plus real-TCP dial scenarios through the attacker's own dialer, a 20ms-ttl refresh scenario and 4 end-to-end runs of the vegeta command (-resolvers, -connect-to, -dns-ttl, -keepalive=false); non-trivial = history with >= 2 dials, or an address list with >= 2 entries"
 	table, err := startDNS()
 	if err != nil {
 		s.Skipped["dns_server_unavailable"]++
@@ -884,6 +946,12 @@ func runC18(c *run.Ctx, s *kit.Summary) {
 		}
 		if err := json.Unmarshal(raw, &rec); err != nil {
 			panic(err)
+		}
+		if strings.Contains(string(rec.Input), `"scenario"`) || strings.Contains(string(rec.Input), `"e2e"`) {
+			realDialScenarios(s, table, "replay")
+			refreshScenario(s, table, "replay")
+			e2eDial(c, s, table, table.addr, "replay")
+			return
 		}
 		var h history
 		r = kit.NewRng(c.Seed)
@@ -923,7 +991,7 @@ func runC18(c *run.Ctx, s *kit.Summary) {
 	foe.Diff(c.Driver, s)
 
 	// sequential histories
-	configs := []string{"none", "D", "D", "D", "C", "C", "DC", "DC", "CD", "CD"}
+	configs := []string{"none", "D", "D", "D", "C", "C", "DC", "DC", "CD", "CD", "N", "NC", "CN"}
 	nh := c.N(300, 10000)
 	for i := 0; i < nh; i++ {
 		h := genHistory(r, configs[r.Pick(len(configs))], c.Tier, 1)
@@ -1023,6 +1091,12 @@ func runC18(c *run.Ctx, s *kit.Summary) {
 		}
 	}
 	rot.Diff(c.Driver, s)
+
+	// real dials through the attacker's own dialer, a positive cache ttl, and the command itself
+	tag := fmt.Sprintf("x%d", r.Pick(1<<30))
+	realDialScenarios(s, table, tag)
+	refreshScenario(s, table, tag)
+	e2eDial(c, s, table, table.addr, tag)
 
 	// custom resolver rotation (package internal/resolver, reached through the vegeta binary)
 	resv := &kit.Stream{Name: "c18.resolver"}
